@@ -2423,7 +2423,7 @@ pub fn run(out: &mut Out, seed: u64, thorough: bool, replay: Option<&str>) {
         }
     }
     // ---- R: everything at once, at random (see `chaos_round`)
-    for round in 0..(if thorough { 40 } else { 12 }) {
+    for round in 0..(if thorough { 300 } else { 12 }) {
         t0 += 10_000_000_000_000;
         chaos_round(out, &mut rng, t0, round);
     }
